@@ -345,6 +345,23 @@ class Compiler:
 
 
     def compile_and_link_files(self, files_ast):
+        try:
+            return self._compile_and_link_files(files_ast)
+        except (RecursionError, MemoryError) as ex:
+            # The program is fine as far as the grammar goes but asks for more
+            # than the interpreter can give (e.g. a very long chain of symbols
+            # each defined through a later one, or gigabytes of '.repeat'ed
+            # data): that is the program's problem, not an internal error
+            location = files_ast[0].body
+            what = "is nested too deeply (for example, a very long chain of definitions that use each other)" if isinstance(ex, RecursionError) else "needs more memory than there is (is some '.repeat' or reserved block far too large?)"
+            reports.error(
+                "too-complex",
+                (location.ctx_start, location.ctx_start, f"The program {what}\nand cannot be compiled.")
+            )
+            raise reports.UnrecoverableError() from None
+
+
+    def _compile_and_link_files(self, files_ast):
         link_base = {
             "promise": Promise[int]("LA"),
             "set_where": None
